@@ -172,6 +172,68 @@ func layoutsDecode(c *explore.Ctx) {
 }
 
 // truncation at every offset and single-byte corruption of the typed documents
+// ---- what follows the place of an error: error values quote an excerpt of the input
+
+type excerptT struct {
+	K string `json:"k"`
+	N int    `json:"n"`
+}
+
+func errorExcerpts(c *explore.Ctx) {
+	leads := []string{"", "[", `{"k":`, "[1,", `{"k":"v","n":`, "  "}
+	bads := []string{"?", `"`, "tru?", "-", `"\u12`, "1.e", `"\q`, "]", `{"a" 1`, "nul"}
+	tails := []string{"\x80", "\xbf\xbf", "é", "\xc3", "€", "\xe2\x82", "😀", "\xf0\x9f\x98", "é\x80\x80\x80", "\xff", "a\x80\x80\x80\x80\x80\x80\x80\x80", ""}
+	lead := leads[c.Choose(len(leads))]
+	bad := bads[c.Choose(len(bads))]
+	var n int64
+	for L := 0; L <= 70; L++ {
+		for _, tail := range tails {
+			for _, fill := range []string{"a", " ", "é"} {
+				body := strings.Repeat(fill, L)
+				if fill == "é" {
+					body = strings.Repeat(fill, L/2)
+				}
+				doc := []byte(lead + bad + body + tail)
+				guard := func(_ *explore.Ctx, what string, _ reflect.Type, f func()) {
+					if pv, site := explore.Catch(f); pv != nil {
+						c.Fail("panic:"+site+":"+explore.PanicClass(pv), "%s panics on %q (%d bytes): %v", what, doc, len(doc), pv)
+					}
+				}
+				guard(c, "Valid", nil, func() { json.Valid(doc) })
+				guard(c, "Unmarshal(any)", nil, func() { var v any; json.Unmarshal(doc, &v) })
+				guard(c, "Unmarshal(struct)", nil, func() { var v excerptT; json.Unmarshal(doc, &v) })
+				guard(c, "Unmarshal([]string)", nil, func() { var v []string; json.Unmarshal(doc, &v) })
+				guard(c, "Parse", nil, func() { var v any; json.Parse(doc, &v, json.ZeroCopy) })
+				guard(c, "Decoder", nil, func() {
+					d := json.NewDecoder(bytes.NewReader(doc))
+					for i := 0; i < 4; i++ {
+						var v any
+						if d.Decode(&v) != nil {
+							break
+						}
+					}
+				})
+				guard(c, "Tokenizer", nil, func() {
+					t := json.NewTokenizer(doc)
+					for i := 0; t.Next() && i < len(doc)+4; i++ {
+					}
+					_ = fmt.Sprint(t.Err)
+				})
+				guard(c, "Compact", nil, func() { json.Compact(new(bytes.Buffer), doc) })
+				guard(c, "Indent", nil, func() { json.Indent(new(bytes.Buffer), doc, "", " ") })
+				guard(c, "RawMessage.MarshalJSON", nil, func() { json.Marshal(json.RawMessage(doc)) })
+				n += 10
+			}
+		}
+	}
+	c.Inner(n)
+	c.NontrivialStr("excerpt", lead, bad)
+	c.Outcome("excerpts")
+	if c.WantSample() || c.Failed() {
+		c.Case(map[string]any{"lead": lead, "erroneous_token": bad, "calls": n})
+	}
+}
+
 func corruptTyped(c *explore.Ctx) {
 	types := layoutTypes(false)
 	if !c.Thorough() {
@@ -772,6 +834,7 @@ func Spec() *explore.Spec {
 			{Name: "ring-targets", ShardDepth: 2, HangSeconds: 60, FatalPerCase: true, Body: ringDecode, Doc: "14 decode targets whose interfaces and pointers form a ring (any / named empty interface / mixed, length 1-3, through **any, entered from outside, struct fields, slice elements, map values, a struct holding itself in a method-bearing interface) x 11 documents x 5 entry points: the call returns, without a panic or a stack overflow"},
 			{Name: "layouts-encode", ShardDepth: 1, Body: layoutsEncode, Doc: "every type shape of C01 plus pointer-shaped leaves nested 1-3 levels in single-field structs and one-element arrays x boundary values x {by value, by pointer, inside []any, as map value, in a typed slice, in a typed map} x {Marshal, Encoder with indent, Append(0)}"},
 			{Name: "layouts-decode", ShardDepth: 1, Body: layoutsDecode, Doc: "the same type shapes x (34 generic documents incl. mismatching, truncated and malformed ones + the encodings of the type's own boundary values) x {Unmarshal into *T and **T, Decoder with UseNumber, Parse with ZeroCopy|DisallowUnknownFields|DontMatchCaseInsensitiveStructFields}"},
+			{Name: "error-excerpts", ShardDepth: 2, Body: errorExcerpts, Doc: "malformed documents lead + erroneous token + 0..70 bytes (ASCII, spaces, two-byte runes) + one of 12 tails (stray continuation bytes, complete and cut multi-byte runes) for 6 leads x 10 erroneous tokens, through 10 entry points (Valid, Unmarshal into any / struct / []string, Parse, Decoder, Tokenizer, Compact, Indent, Marshal of a RawMessage): what follows the place of the error, at any distance, never makes the call panic"},
 			{Name: "corrupt-typed", ShardDepth: 1, Body: corruptTyped, Doc: "typed documents (encodings of boundary values) truncated at every offset and with every byte replaced by each of 14 structural bytes, decoded into their own type"},
 			{Name: "ladder-decode", ShardDepth: 3, HangSeconds: 300, MaxWorkers: 8, Body: ladderDecode, Doc: "documents nested 100 ... 100,000 (thorough 1,000,000 and 5,000,000) deep in 6 shapes (arrays, objects, mixed, recursive-struct shaped), closed and unclosed, through 14 entry points (Valid, Unmarshal into any / RawMessage / struct{} / []any / map / recursive struct types, Tokenizer, Decoder, Compact, Indent, Parse)"},
 			{Name: "ladder-encode", ShardDepth: 3, HangSeconds: 300, MaxWorkers: 8, Body: ladderEncode, Doc: "values nested 100 ... 100,000 (thorough 1,000,000 and 5,000,000) deep in 7 shapes ([]any, map[string]any, pointer chains, recursive struct via slice / map / pointer, recursive slice type, *any chains) through Marshal / Append / Encoder"},
